@@ -16,7 +16,8 @@ superseded = {"C18-2": "the seed stopped clearing the EVAL_CMD/DEADLINE globals 
                        "On the repaired tree the handler is reachable from EVAL/EVALSHA only, which are gated before the script runs, and the seed's demonstration passes."}
 needs = {}
 rows = []
-only = sys.argv[1:]
+nocheck = '--nocheck' in sys.argv  # rebuild metas from the stored verify/check logs without running anything
+only = [a for a in sys.argv[1:] if a != '--nocheck']
 for d in sorted(glob.glob(V + '/seeded/C*')):
     name = os.path.basename(d)
     if only and name not in only:
@@ -33,10 +34,16 @@ for d in sorted(glob.glob(V + '/seeded/C*')):
     notes = open(d + '/notes_from_seeder.md').read() if os.path.exists(d + '/notes_from_seeder.md') else ''
     results = {}
     for p in props:
-        r = subprocess.run([V + '/tools/seedcheck.sh', name, p], capture_output=True, text=True)
-        log = open(f'{d}/check_{p}.quick.log').read() if os.path.exists(f'{d}/check_{p}.quick.log') else ''
-        m = re.search(r'check_exit=(\d+)', r.stdout)
-        rc = int(m.group(1)) if m else None
+        if nocheck:
+            if not os.path.exists(f'{d}/check_{p}.quick.log'):
+                continue
+            log = open(f'{d}/check_{p}.quick.log').read()
+            rc = 1 if re.search(r'^VIOLATION', log, re.M) else (2 if re.search(r'^INCONCLUSIVE', log, re.M) else 0)
+        else:
+            r = subprocess.run([V + '/tools/seedcheck.sh', name, p], capture_output=True, text=True)
+            log = open(f'{d}/check_{p}.quick.log').read() if os.path.exists(f'{d}/check_{p}.quick.log') else ''
+            m = re.search(r'check_exit=(\d+)', r.stdout)
+            rc = int(m.group(1)) if m else None
         am = re.search(r'^  assert=(\S+) harness=(\S+)', log, re.M)
         results[p] = dict(check_exit=rc, caught=(rc == 1), assert_=am.group(1) if am else None, harness=am.group(2) if am else None)
     files = [l[6:].split(' ')[0].strip() for l in open(d + '/patch.diff') if l.startswith('+++ b/')]
